@@ -97,7 +97,12 @@ Definition lower (c : N) : N :=
   if (65 <=? c)%N && (c <=? 90)%N then (c + 32)%N else c.
 
 (* hasURLScheme (transport.go): len(addr) >= n+3 && EqualFold(addr[:n], scheme) &&
-   addr[n:n+3] == "://", for a lower-case ASCII scheme *)
+   addr[n:n+3] == "://", for a lower-case ASCII scheme.
+   strings.EqualFold is Unicode simple folding, [map lower] ASCII only.  They agree on
+   every byte string here: addr[:n] is n = 2 or 3 BYTES; a non-ASCII rune that folds to
+   's' or 'k' (U+017F, U+212A) takes at least 2 bytes, which leaves too few bytes for
+   the remaining letters of "ws" / "wss", and EqualFold ends with a length comparison.
+   (The harness carries these corner inputs: "w\u017f://a", "w\u017fs://a", "\u212aws://a".) *)
 Definition has_url_scheme (addr scheme : str) : bool :=
   let n := length scheme in
   Nat.leb (n + 3) (length addr)
